@@ -74,4 +74,16 @@ theorem gen_constraint_settings :
       = [f_u0, f_u1] := by
   simp only [Gen.cfg_normal_widths, Gen.cfg_poisson_factors]; norm_num
 
+/-- **channel layout** (three channels listed as ZR, AR, MR with 3, 1, 2 bins): the reported channels are the declared ones in sorted
+order; every channel's reported bin count and the width of its slice are the bin count *declared under that name*; the slices tile
+`[0, nmaindata)` in the reported channel order; the samples are the sorted union; the parameter slices tile `[0, npars)` -/
+theorem gen_channel_layout :
+    Gen.lay_channels = ["AR", "MR", "ZR"] ∧ Gen.lay_samples = ["qcd", "ttbar", "wjets"] ∧
+    Gen.lay_channel_nbins.map (·.1) = Gen.lay_channels ∧ Gen.lay_channel_slices.map (·.1) = Gen.lay_channels ∧
+    (∀ e ∈ Gen.lay_channel_nbins, Gen.lay_declared.lookup e.1 = some e.2) ∧
+    (∀ e ∈ Gen.lay_channel_slices, Gen.lay_declared.lookup e.1 = some (e.2.2 - e.2.1)) ∧
+    (Gen.lay_channel_slices.map fun x => List.range' x.2.1 (x.2.2 - x.2.1)).flatten = List.range Gen.lay_nmaindata ∧
+    (Gen.lay_par_slices.map fun x => List.range' x.2.1 (x.2.2 - x.2.1)).flatten = List.range Gen.lay_npars := by
+  decide
+
 end Pyhf.Props.C12
